@@ -155,6 +155,9 @@ def run(ctx):
     voigt_tie(ctx, rd)
     shutil.copy(PROPS / "Prop_C04.v", rd / "Prop_C04.v")
     ctx.prove(rd / "Prop_C04.v", "Prop_C04.v (scheduler, rank, isotropic-limit and axis-relabelling theorems)", "theorem-file")
+    # static tie: __eq__ / __hash__ / _make_param_by_strain_key re-translated and proved equal to the task model
+    from props import taskid_static
+    taskid_static.static_tie(ctx, rd)
 
     import cij.core.tasks as TK
     import cij.core.phonon_contribution.shear as S
